@@ -319,3 +319,38 @@ package dvid
 //@   assert at "if remain < dx {": dx >= 1 && dx <= blockSize[0]
 //@   assert at "brles.appendBlockRLE(bcoord, rx, rle.start[1], rle.start[2], remain)": remain >= 1 && bBegX <= rx && int64(rx) + int64(remain) <= int64(bBegX) + int64(blockSize[0])
 //@   assert at "brles.appendBlockRLE(bcoord, rx, rle.start[1], rle.start[2], dx)": dx >= 1 && bBegX <= rx && int64(rx) + int64(dx) == int64(bBegX) + int64(blockSize[0])
+
+// SerializeData (C15): empty input gives the empty envelope; without compression the envelope is the
+// format byte, the optional CRC-32 and the payload bytes unchanged (so DeserializeData's contract above
+// returns the identical bytes). LZ4: the output buffer handed to lz4.Compress must have room for the
+// worst case (lz4.CompressBound) - this is the precondition of the trusted lz4.Compress contract in
+// /verif/trusted/external.spec and is checked at the call site; an undersized buffer makes Compress fail
+// on incompressible input, i.e. a legal byte string that cannot be serialised.
+//@ func SerializeData
+//@   prop C15
+//@   safety_off
+//@   modifies *
+//@   ensures len(data) == 0 ==> result1 == nil && len(result0) == 0
+//@   ensures len(data) > 0 && uint8(compress.format) == 0 && uint8(checksum) == 0 ==> result1 == nil && len(result0) == 1 + len(data) && result0[0] == 0 && rangeeq(result0, 1, data, 0, len(data))
+//@   ensures len(data) > 0 && uint8(compress.format) == 0 && uint8(checksum) == 1 ==> result1 == nil && len(result0) == 5 + len(data) && result0[0] == 8 && le32(result0, 1) == crc32(data) && rangeeq(result0, 5, data, 0, len(data))
+
+// The compression-format name is total: any byte value (a corrupted envelope carries an arbitrary 3-bit
+// format, callers pass arbitrary CompressionFormat values into error messages) yields a string, no panic.
+//@ func CompressionFormat.String
+//@   prop C15 C20
+//@   ensures true
+
+// ---- ROI span order and membership (C18) ----
+//@ func Span.Less
+//@   prop C18
+//@   ensures result == (s[0] < s2[0] || (s[0] == s2[0] && (s[1] < s2[1] || (s[1] == s2[1] && (s[2] < s2[2] || (s[2] == s2[2] && s[3] < s2[3]))))))
+
+// LessChunkPoint3d: the span lies entirely before the block in (z, y, x) order - the test seekSpan uses
+// to walk the sorted spans once per multi-point query.
+//@ func Span.LessChunkPoint3d
+//@   prop C18
+//@   ensures result == (s[0] < block[2] || (s[0] == block[2] && (s[1] < block[1] || (s[1] == block[1] && s[3] < block[0]))))
+
+//@ func Span.Includes
+//@   prop C18
+//@   ensures result == (s[0] == block[2] && s[1] == block[1] && s[2] <= block[0] && block[0] <= s[3])
